@@ -3,6 +3,7 @@ from ..core import Rule
 from ..prog import *
 from ..facts import AnalysisBroken
 from .. import dnsparse as D
+from ..interp import normx, nkey, run_all
 
 UNITS = ["evdns"]
 LEVEL = "other"
@@ -154,4 +155,119 @@ def run(ctx, config):
         if w is not None:
             r3.bad("K11:request_parse:server_req:leak", alloc[0].where(), f.name, "server_req is neither freed nor handed to the responder/user on the path returning at line %s" % getattr(w, "line", "?"))
     rules.append(r3)
+    rules.append(rule_tcpframe(P))
     return rules
+
+
+
+def rule_tcpframe(P):
+    """DNS over TCP: tcp_read_message evaluated on an abstract input buffer, driven the way its two callers drive it (call until no complete message is left,
+    reset awaiting_packet_size after each message), for a stream of three messages cut at every byte position and fed byte by byte"""
+    r = Rule("C37-tcpframe", "K6", "TCP framing: the messages delivered are exactly the length-prefixed messages of the stream, for every segmentation", floor=300)
+    f = P.fn("tcp_read_message")
+    conn = f.params[0][0]
+    msgs = [bytes(range(1, 6)), bytes((i * 7 + 3) & 0xff for i in range(300)), bytes([9, 8, 7])]
+    stream = b"".join(len(m).to_bytes(2, "big") + m for m in msgs)
+    CELL = lambda fl: ("@", "conn", "tcp_connection.%s" % fl)
+    enumv = {}
+    for e in P.enums.values():
+        for n, v in e["items"]:
+            enumv[n] = v
+
+    def call(state, buf):
+        """one call of tcp_read_message; -> (ret, message or None, new awaiting value, new buf) or ('unknown', why)"""
+        env = {"#typed": 1, conn: PPtr("conn"), f.params[1][0]: PRef(None, "#msg"), f.params[2][0]: PRef(None, "#msglen"), "#msg": 0, "#msglen": 0, "#buf": buf, "#pkt": None,
+               CELL("bev"): 55, CELL("awaiting_packet_size"): state, CELL("state"): enumv.get("TS_CONNECTED", 1), "event_debug_logging_mask_": 0}
+
+        def hook(el, e_):
+            n = callee_name(el.e)
+            a = el.e[2]
+            try:
+                if n == "bufferevent_get_input":
+                    return 77
+                if n == "evbuffer_get_length":
+                    return len(e_["#buf"])
+                if n == "bufferevent_read":
+                    want = evalx(normx(a[2]), e_, P)
+                    k = min(want, len(e_["#buf"]))
+                    data = e_["#buf"][:k]
+                    e_["#buf"] = e_["#buf"][k:]
+                    d = strip(a[1])
+                    if is_e(d, "addr"):
+                        tgt = strip(d[1])
+                        hc = heap_cell(tgt, e_, P)
+                        kk = hc if hc is not None else (tgt[1] if is_e(tgt, "var") else None)
+                        if kk is None:
+                            return "impure"
+                        old = e_.get(kk, 0) or 0
+                        bs = list(old.to_bytes(2, "little"))
+                        for j in range(k):
+                            bs[j] = data[j]
+                        e_[kk] = int.from_bytes(bytes(bs), "little")
+                    else:
+                        p = evalx(normx(d), e_, P)
+                        if not isinstance(p, PPtr):
+                            return "impure"
+                        e_["#pkt"] = data
+                    return k
+                if n in ("ntohs", "__bswap_16", "htons"):
+                    v = evalx(normx(a[0]), e_, P)
+                    return ((v & 0xff) << 8) | ((v >> 8) & 0xff)
+                if n == "event_mm_malloc_":
+                    return PPtr(("n", 0))
+                if n == "event_mm_free_":
+                    e_["#pkt"] = None
+                    return 0
+            except EvalError:
+                return "impure"
+            return None
+        outs = [o for o in run_all(f, (f.entry, 0), env, lambda el: False, P, hook, max_steps=300) if not (o.kind == "exit" and o.why == "noreturn")]
+        if len(outs) != 1 or outs[0].kind != "ret":
+            return ("unknown", str([(o.kind, o.why) for o in outs][:2]))
+        o = outs[0]
+        rv = evalx(normx(o.at.e[1]), o.env, P)
+        m = o.env.get("#pkt") if isinstance(o.env.get("#msg"), PPtr) else None
+        if m is not None and o.env.get("#msglen") != len(m):
+            m = ("badlen", o.env.get("#msglen"), len(m))
+        return (rv, m, o.env.get(CELL("awaiting_packet_size")), o.env["#buf"])
+
+    def feed(cuts):
+        state, buf, got = 0, b"", []
+        pos = 0
+        for c in list(cuts) + [len(stream)]:
+            buf += stream[pos:c]
+            pos = c
+            for _ in range(8):
+                res = call(state, buf)
+                if res[0] == "unknown":
+                    return res
+                rv, m, state, buf = res
+                if rv:
+                    return ("fail", got)
+                if m is None:
+                    break
+                got.append(m)
+                state = 0            # the callers reset the expected size after handing the message on
+        return ("ok", got, buf)
+    nb = 0
+    segs = [()] + [(k,) for k in range(1, len(stream))] + [tuple(range(1, len(stream)))]
+    for cuts in segs:
+        res = feed(cuts)
+        if res[0] == "unknown":
+            r.brk("tcp_read_message not evaluable (cuts %s): %s" % (list(cuts)[:3], res[1]))
+            return r
+        ok = res[0] == "ok" and res[1] == msgs and res[2] == b""
+        r.inst(cuts if len(cuts) < 3 else "bytewise", {"cuts": list(cuts)[:3], "outcome": res[0], "messages": [len(m) if isinstance(m, bytes) else m for m in res[1]]})
+        if not ok and nb < 4:
+            nb += 1
+            r.bad("K6:tcp_read_message:segmentation", "%s:%d" % (f.file, f.line), f.name,
+                  "stream of messages of %s bytes %s: %s, delivered message lengths %s — the messages must be exactly those of the stream whatever the segmentation" % (
+                      [len(m) for m in msgs], ("cut at %s" % list(cuts)) if len(cuts) < 3 else "fed byte by byte", "connection failed" if res[0] == "fail" else "ok", [len(m) if isinstance(m, bytes) else m for m in res[1]]))
+    # the callers reset awaiting_packet_size after each delivered message
+    callers = P.callers().get("tcp_read_message", [])
+    for g, el in callers:
+        resets = [x for x, lhs, op, rhs in g.stores() if fields_of(lhs)[-1:] == ["tcp_connection.awaiting_packet_size"] and is_e(strip(rhs), "int") and strip(rhs)[1] == 0]
+        r.inst(("caller", g.name), {"caller": g.name, "resets_expected_size": [x.where() for x in resets]}, nontrivial=False)
+        if not resets:
+            r.bad("K3:%s:expected-size-not-reset" % g.name, el.where(), g.name, "after a delivered message the caller does not reset conn->awaiting_packet_size: the next length prefix would be skipped")
+    return r
